@@ -374,3 +374,141 @@ Print Assumptions C10_dot_scalar_is_multiply.
 Print Assumptions C10_tuple_get_create.
 Print Assumptions C10_vector_create_repeat.
 Print Assumptions C10_reshape_array_identity.
+
+(* ====================================================================================== *)
+(* Gemm (ONNX Gemm with alpha = 1, beta = 0, C = 0; graphs.rs:1809): op(A) op(B) where op
+   transposes the last two dimensions when the flag is set; stacks of matrices whose batch
+   dimensions b0, b1 broadcast to br (any number of batch dimensions, all four flag combinations):
+   c[batch, i, j] = sum_l op(A)[bcast batch, i, l] * op(B)[bcast batch, l, j]  mod 2^w,
+   op(A)[.., i, l] = A[.., l, i] if transpose_a else A[.., i, l]  ([tr_pair], Graph/Spec.v). *)
+From CC Require Import Proofs.EvalSpecGemm.
+
+Theorem C10_gemm_spec : forall st st0 st1 ta tb b0 b1 br n k m e0 e1,
+  bcast_to b0 br -> bcast_to b1 br -> 0 < n -> 0 < k -> 0 < m ->
+  let s0 := b0 ++ tr_pair ta n k in let s1 := b1 ++ tr_pair tb k m in let rs := br ++ [n; m] in
+  length e0 = Z.to_nat (prod_list s0) -> length e1 = Z.to_nat (prod_list s1) ->
+  exists r, eval_node (OGemm ta tb) [TArray s0 st0; TArray s1 st1] (TArray rs st) [VArr e0; VArr e1] = Ok (VArr r) /\
+    length r = Z.to_nat (prod_list rs) /\
+    forall bi i j, in_shape bi br -> 0 <= i < n -> 0 <= j < m ->
+      get r rs (bi ++ [i; j]) =
+      dot_sum k (fun l => get e0 s0 (bcast_index b0 br bi ++ tr_pair ta i l))
+                (fun l => get e1 s1 (bcast_index b1 br bi ++ tr_pair tb l j)) mod modulus st.
+Proof. exact gemm_spec. Qed.
+(* the evaluator's transposition of an operand swaps the last two coordinates *)
+Theorem C10_transpose_spec : forall F x y es,
+  valid_shape (F ++ [x; y]) -> length es = Z.to_nat (prod_list (F ++ [x; y])) ->
+  exists r, eval_transpose (F ++ [x; y]) es = Ok r /\ length r = length es /\
+    forall f i j, in_shape f F -> 0 <= i < x -> 0 <= j < y ->
+      get r (F ++ [y; x]) (f ++ [j; i]) = get es (F ++ [x; y]) (f ++ [i; j]).
+Proof. exact transpose_spec. Qed.
+(* Gemm without flags on the second operand's transposition is Matmul's formula: with
+   ta = false, tb = false the right-hand sides of C10_gemm_spec and C10_matmul_spec coincide. *)
+Example C10_example_gemm :
+  bcast_to [2] [2] /\ bcast_to [1] [2] /\
+  (* op(A) = A^T: batch 0 (2^127, 2^100), batch 1 (3, 2^64); op(B) = B^T = [[2, 2^27], [1, 5]] *)
+  eval_node (OGemm true true) [TArray [2; 2; 1] U128; TArray [1; 2; 2] U128] (TArray [2; 1; 2] U128)
+            [VArr [2 ^ 127; 2 ^ 100; 3; 2 ^ 64]; VArr [2; 1; 2 ^ 27; 5]]
+  = Ok (VArr [2 ^ 100; 5 * 2 ^ 100; 2 ^ 64 + 6; 3 * 2 ^ 27 + 5 * 2 ^ 64]) /\
+  (* [[200, 3]] x [[2, 1], [0, 5], [7, 100]]^T = [403, 15, 1700] mod 256 *)
+  eval_node (OGemm false true) [TArray [1; 2] U8; TArray [3; 2] U8] (TArray [1; 3] U8)
+            [VArr [200; 3]; VArr [2; 1; 0; 5; 7; 100]]
+  = Ok (VArr [147; 15; 164]).
+Proof. split; [c10_bc|split; [c10_bc|split; vm_compute; reflexivity]]. Qed.
+
+Print Assumptions C10_gemm_spec.
+Print Assumptions C10_transpose_spec.
+
+(* ====================================================================================== *)
+(* Stack (graphs.rs:2589): prod(outer) items, each a scalar or an array broadcastable (NumPy
+   rule) to the common inner shape, arranged row-major along the new leading dimensions [outer]:
+   result[oi ++ ii] = item_{row-major number of oi}[broadcast ii].
+   [stack_inner inner] is [inner], or [1] when only scalars are stacked (inner = [], the result
+   type is then TArray outer and result[oi] is the oi-th scalar: C10_stack_scalars). *)
+From CC Require Import Proofs.EvalSpecStack.
+
+Theorem C10_stack_spec : forall outer inner st ess dts,
+  valid_shape outer -> valid_shape inner ->
+  let inner' := stack_inner inner in
+  Z.of_nat (length ess) = prod_list outer ->
+  Forall2 (fun es dty => is_leaf dty = true /\ bcast_to (dims dty) inner' /\
+                         length es = Z.to_nat (prod_list (dims dty))) ess dts ->
+  exists r, eval_node (OStack outer) dts (TArray (outer ++ inner) st) (map VArr ess) = Ok (VArr r) /\
+    length r = Z.to_nat (prod_list (outer ++ inner)) /\
+    forall oi ii, in_shape oi outer -> in_shape ii inner' ->
+      let q := Z.to_nat (flat_pos oi outer) in
+      let sq := dims (nth q dts (TTuple [])) in
+      get r (outer ++ inner') (oi ++ ii) = get (nth q ess []) sq (bcast_index sq inner' ii).
+Proof. exact stack_spec. Qed.
+(* stacking scalars: the oi-th element of the result is the oi-th scalar *)
+Theorem C10_stack_scalars : forall outer st sts (xs : list Z),
+  valid_shape outer -> Z.of_nat (length xs) = prod_list outer -> length sts = length xs ->
+  exists r, eval_node (OStack outer) (map TScalar sts) (TArray outer st) (map (fun x => VArr [x]) xs) = Ok (VArr r) /\
+    length r = Z.to_nat (prod_list outer) /\
+    forall oi, in_shape oi outer -> get r outer oi = nth (Z.to_nat (flat_pos oi outer)) xs 0.
+Proof.
+  intros outer st sts xs Hvo Hn Hl.
+  assert (HF : Forall2 (stack_item_ok (stack_inner [])) (map (fun x => [x]) xs) (map TScalar sts)).
+  { clear Hn. revert sts Hl. induction xs as [|x xs IH]; intros [|s sts] Hl; cbn in Hl; try lia; cbn [map]; constructor.
+    - split; [reflexivity|]. split; [c10_bc|reflexivity].
+    - apply IH. lia. }
+  destruct (stack_spec outer [] st (map (fun x => [x]) xs) (map TScalar sts) Hvo ltac:(constructor)
+              ltac:(now rewrite map_length) HF) as (r & E & L & S).
+  rewrite map_map, app_nil_r in E. rewrite app_nil_r in L.
+  exists r. split; [exact E|]. split; [exact L|].
+  intros oi Hoi. pose proof (flat_pos_range _ _ Hoi) as R.
+  specialize (S oi [0] Hoi ltac:(repeat constructor; lia)). cbv zeta in S. cbn [stack_inner] in S.
+  destruct (get_trailing_one r outer oi) as [G|G]; [|exfalso; apply G; now apply in_shape_length].
+  rewrite <- G, S.
+  rewrite nth_indep with (d' := TScalar Bit) by (rewrite map_length; lia).
+  rewrite map_nth. cbn [dims].
+  rewrite nth_indep with (d' := [0]) by (rewrite map_length; lia).
+  rewrite (map_nth (fun x => [x])). reflexivity.
+Qed.
+
+(* Concatenate (numpy.concatenate, graphs.rs:2624): operands of shapes pre ++ [n_q] ++ post are
+   joined along the axis |pre|; coordinate x on that axis falls into operand q at local coordinate
+   y, (q, y) = concat_locate ns x (the operand sizes are subtracted from x in turn). *)
+Theorem C10_concatenate_spec : forall pre post ns ess st st',
+  valid_shape pre -> valid_shape post ->
+  Forall2 (fun es n => 0 < n /\ length es = Z.to_nat (prod_list (pre ++ n :: post))) ess ns ->
+  let N := list_sum_z ns in let rs := pre ++ N :: post in
+  exists r, eval_node (OConcatenate (Z.of_nat (length pre)))
+                      (map (fun n => TArray (pre ++ n :: post) st) ns) (TArray rs st') (map VArr ess)
+            = Ok (VArr r) /\
+    length r = Z.to_nat (prod_list rs) /\
+    forall ip x ipost, in_shape ip pre -> 0 <= x < N -> in_shape ipost post ->
+      let q := fst (concat_locate ns x) in let y := snd (concat_locate ns x) in
+      (q < length ns)%nat /\ 0 <= y < nth q ns 0 /\
+      get r rs (ip ++ x :: ipost) = get (nth q ess []) (pre ++ nth q ns 0 :: post) (ip ++ y :: ipost).
+Proof. exact concatenate_spec. Qed.
+
+Example C10_example_stack :
+  (* the documented example: stack([[1,2],[3,4]], [[5],[6]]; [2]) = [[[1,2],[3,4]], [[5,5],[6,6]]] *)
+  Forall2 (stack_item_ok (stack_inner [2; 2])) [[1; 2; 3; 2 ^ 100]; [5; 2 ^ 127]]
+          [TArray [2; 2] U128; TArray [2; 1] U128] /\
+  eval_node (OStack [2]) [TArray [2; 2] U128; TArray [2; 1] U128] (TArray [2; 2; 2] U128)
+            [VArr [1; 2; 3; 2 ^ 100]; VArr [5; 2 ^ 127]]
+  = Ok (VArr [1; 2; 3; 2 ^ 100; 5; 5; 2 ^ 127; 2 ^ 127]) /\
+  eval_node (OStack [2]) [TScalar U8; TScalar U8] (TArray [2] U8) [VArr [7]; VArr [9]] = Ok (VArr [7; 9]) /\
+  eval_node (OStack [2; 1]) [TScalar U8; TArray [3] U8] (TArray [2; 1; 3] U8) [VArr [7]; VArr [1; 2; 3]]
+  = Ok (VArr [7; 7; 7; 1; 2; 3]).
+Proof.
+  split; [|repeat split; vm_compute; reflexivity].
+  constructor; [split; [reflexivity|split; [c10_bc|reflexivity]]|].
+  constructor; [split; [reflexivity|split; [c10_bc|reflexivity]]|constructor].
+Qed.
+Example C10_example_concatenate :
+  (* concatenate([[1],[2^100]], [[3,4],[5,2^127]], axis=1) = [[1,3,4],[2^100,5,2^127]] *)
+  Forall2 (concat_item_ok [2] []) [[1; 2 ^ 100]; [3; 4; 5; 2 ^ 127]] [1; 2] /\
+  eval_node (OConcatenate 1) [TArray [2; 1] U128; TArray [2; 2] U128] (TArray [2; 3] U128)
+            [VArr [1; 2 ^ 100]; VArr [3; 4; 5; 2 ^ 127]]
+  = Ok (VArr [1; 3; 4; 2 ^ 100; 5; 2 ^ 127]) /\
+  (concat_locate [1; 2] 0, concat_locate [1; 2] 1, concat_locate [1; 2] 2) = ((O, 0), (1%nat, 0), (1%nat, 1)).
+Proof.
+  split; [|split; vm_compute; reflexivity].
+  constructor; [split; [lia|reflexivity]|]. constructor; [split; [lia|reflexivity]|constructor].
+Qed.
+
+Print Assumptions C10_stack_spec.
+Print Assumptions C10_stack_scalars.
+Print Assumptions C10_concatenate_spec.
